@@ -44,6 +44,20 @@ def run(chk, repo):
 
 def _t1(chk, repo, g, mod, gi, where):
     # ------------------------------------------------------------ T1
+    # a stored context manager entered by every load (with self.<x> as f) carries its enter/exit state on a shared object
+    shared_cm = []
+    for k in sorted(g.reachable([GETITEM])):
+        fi2 = g.funcs[k]
+        for n in fi2.own_nodes():
+            if isinstance(n, (ast.With, ast.AsyncWith)):
+                for it in n.items:
+                    e = it.context_expr
+                    txt = norm(e)
+                    if isinstance(e, ast.Attribute) and txt.startswith("self.") and "lock" not in txt.lower() and it.optional_vars is not None:
+                        shared_cm.append(f"{fi2.qualname}: with {txt} as {norm(it.optional_vars)}")
+    chk.require(not shared_cm, "C19-T1", where, "every load enters a context manager created for that load (no `with self.<stored object> as f`)",
+                f"a load enters a context manager stored on the shared Array ({shared_cm[:2]}): what __enter__ / __exit__ keep on that object (the open handles of an fsspec OpenFile) is shared by all "
+                f"concurrent loads - one load's exit closes the handle another load is reading from", key="shared-context-manager")
     opens = [e for e in effects.scan(repo, gi) if "open" in e.detail]
     if not opens:
         # the open moved into a helper: where does the handle live?
@@ -53,6 +67,8 @@ def _t1(chk, repo, g, mod, gi, where):
             for e in effects.scan(repo, fi2):
                 if "open" in e.detail:
                     helper_opens.append((fi2, e))
+        if not helper_opens and shared_cm:
+            return  # reported above
         if not helper_opens:
             raise AnalysisError("anchor vanished: no fs.open reachable from Array.__getitem__")
         for fi2, e in helper_opens:
@@ -132,34 +148,61 @@ def _t34(chk, repo, g):
                 bad_locks.append(f"{fi.key}: {short(c, 40)}")
     chk.require(not bad_locks, "C19-T3", "package", "no threading/multiprocessing lock object is created (pickled copies of the tree stay loadable)",
                 f"unpicklable lock objects: {bad_locks}", key="unpicklable-lock")
-    nested = []
+    # lock-order graph over the load path: an edge A -> B when B is acquired (in the same function or in something it calls) while
+    # A is held.  A cycle - including A -> A for a non-reentrant lock or a counting semaphore - is a possible deadlock.
+    def ident(detail):
+        t = detail.replace("with ", "").split(" (")[0].strip()
+        return t
+    edges = {}
     for k in sorted(reach):
         fi = g.funcs[k]
-        for e in effects.scan(repo, fi):
-            if e.kind == "lock" and isinstance(e.node, (ast.With, ast.AsyncWith)):
-                inner = set()
-                for st in e.node.body:
-                    for c in ast.walk(st):
-                        if isinstance(c, (ast.Name, ast.Attribute, ast.Subscript)):
-                            pass
-                    for c in ast.walk(st):
-                        if isinstance(c, ast.Call):
-                            for cal in resolve_callees(repo, fi, c.func):
-                                inner.add(cal.key)
-                        if isinstance(c, ast.Subscript):
-                            inner |= {m.key for m in g.methods_by_name.get("__getitem__", ())}
-                for k2 in g.reachable(inner):
-                    if k2 == fi.key:
-                        continue
-                    for e2 in effects.scan(repo, g.funcs[k2]):
-                        if e2.kind == "lock":
-                            nested.append(f"{fi.qualname} holds {e.detail} while {g.funcs[k2].qualname} acquires {e2.detail}")
-                for st in e.node.body:
-                    for c in ast.walk(st):
-                        if isinstance(c, (ast.With, ast.AsyncWith)) and any("lock" in norm(it.context_expr).lower() for it in c.items):
-                            nested.append(f"{fi.qualname}: nested `with` on locks")
-    chk.require(not nested, "C19-T3", "load path", "lock acquisitions do not nest (lock-order graph has no edge, hence no cycle)",
-                f"nested lock acquisition: {nested[:2]}", key="nested-locks")
+        holders = [(e.detail, e.node.body) for e in effects.scan(repo, fi) if e.kind == "lock" and isinstance(e.node, (ast.With, ast.AsyncWith))]
+        holders += [(dl.split(" holds ")[1].split(" around")[0], list(fi.node.body)) for dl in effects.decorator_locks(repo, fi)]
+        for held, body in holders:
+            inner = set()
+            for st in body:
+                for c in ast.walk(st):
+                    if isinstance(c, ast.Call):
+                        for cal in resolve_callees(repo, fi, c.func):
+                            inner.add(cal.key)
+                    if isinstance(c, ast.Subscript) and isinstance(c.ctx, ast.Load):
+                        r_ = norm(c.value)
+                        if r_.startswith("self.") and r_ != "self":
+                            inner |= {m.key for m in g.methods_by_name.get("__getitem__", ()) if m.key != fi.key}
+                    if isinstance(c, (ast.With, ast.AsyncWith)) and c not in (getattr(st, "_w", None),):
+                        for it in c.items:
+                            if "lock" in norm(it.context_expr).lower() or effects.sync_object(repo, fi, it.context_expr):
+                                edges.setdefault(ident(held), set()).add((ident(norm(it.context_expr)), f"{fi.qualname}: nested `with`"))
+            for k2 in g.reachable(inner):
+                f2 = g.funcs[k2]
+                for e2 in effects.scan(repo, f2):
+                    if e2.kind == "lock" and not (k2 == fi.key and ident(e2.detail) == ident(held)):
+                        edges.setdefault(ident(held), set()).add((ident(e2.detail), f"{fi.qualname} -> {f2.qualname}"))
+                for dl in effects.decorator_locks(repo, f2):
+                    edges.setdefault(ident(held), set()).add((ident(dl.split(" holds ")[1].split(" around")[0]), f"{fi.qualname} -> {f2.qualname} (decorator)"))
+    # several items of one `with a, b:` are acquired in order: a -> b
+    for k in sorted(reach):
+        fi = g.funcs[k]
+        for n in fi.own_nodes():
+            if isinstance(n, (ast.With, ast.AsyncWith)) and len(n.items) > 1:
+                locks = [norm(it.context_expr) for it in n.items if "lock" in norm(it.context_expr).lower() or effects.sync_object(repo, fi, it.context_expr)]
+                for a_, b_ in zip(locks, locks[1:]):
+                    edges.setdefault(ident(a_), set()).add((ident(b_), f"{fi.qualname}: `with {a_}, {b_}`"))
+    cycles = []
+    nodes = set(edges) | {t for v in edges.values() for t, _ in v}
+    for start in sorted(nodes):
+        stack, seen = [(start, [start])], set()
+        while stack:
+            cur, path = stack.pop()
+            for nxt, why in sorted(edges.get(cur, ())):
+                if nxt == start:
+                    cycles.append(" -> ".join(path + [nxt]) + f" ({why})")
+                elif nxt not in seen and len(path) < 6:
+                    seen.add(nxt)
+                    stack.append((nxt, path + [nxt]))
+    nested = sorted(set(cycles))
+    chk.require(not nested, "C19-T3", "load path", f"lock-order graph of the load path is acyclic ({sum(len(v) for v in edges.values())} edge(s): {sorted((a_, t) for a_, v in edges.items() for t, _ in v)[:4]})",
+                f"the lock-order graph of the load path has a cycle: {nested[:2]} - two loads that each hold one unit and wait for the next block each other forever", key="nested-locks")
     # T5: pairing - an explicit acquire() is released on every exit (try/finally), also inside generator-based context managers,
     # where an exception raised in the with-block surfaces at the `yield`
     n_acq = 0
